@@ -9,6 +9,7 @@ import (
 	"bytes"
 	"context"
 	"encoding/binary"
+	"errors"
 	"fmt"
 	"io"
 	"os"
@@ -72,6 +73,33 @@ type vfC12World struct {
 	metas  [][]byte
 	txs    [][]byte
 	sample [64]byte
+	// allocation budget of the call in progress (see step)
+	allocBase uint64
+	allocErr  string
+	allocMax  uint64
+	inLen     int
+}
+
+// step closes the allocation budget of the entry-point call that just returned and opens the next one: a target
+// that drives several independent entry points with the same input gives each of them its own budget (the budget
+// is per call of the server into the parser, not per harness target). limit 0 = the default 64 MiB + 256 x input.
+func (w *vfC12World) step(label string, limit uint64) {
+	var ms runtime.MemStats
+	runtime.ReadMemStats(&ms)
+	d := ms.TotalAlloc - w.allocBase
+	w.allocBase = ms.TotalAlloc
+	if d > w.allocMax {
+		w.allocMax = d
+	}
+	bound := "64 MiB + 256 x input"
+	if limit == 0 {
+		limit = uint64(64<<20) + 256*uint64(w.inLen)
+	} else {
+		bound = fmt.Sprintf("%d KiB for this call", limit>>10)
+	}
+	if d > limit && w.allocErr == "" {
+		w.allocErr = fmt.Sprintf("%s allocated %d MiB while handling a %d-byte input (bound: %s)", label, d>>20, w.inLen, bound)
+	}
 }
 
 type vfRAC struct{ b []byte }
@@ -294,9 +322,12 @@ var vfC12Targets = []vfC12Target{
 		return out
 	}, varints: func(w *vfC12World, seed []byte) []int { return []int{0} }, run: func(w *vfC12World, d []byte) bool {
 		_, err := parseNodeFromSection(d, nil)
+		w.step("parseNodeFromSection", 0)
 		c := w.ep.Objects[0].Cid
 		parseNodeFromSection(d, &c)
+		w.step("parseNodeFromSection (with the wanted CID)", 0)
 		readNodeWithKnownSize(bufio.NewReader(bytes.NewReader(d)), nil, uint64(len(d)))
+		w.step("readNodeWithKnownSize", 0)
 		readNodeSizeFromReaderAtWithOffset(&vfRAC{d}, 0)
 		return err == nil
 	}},
@@ -407,8 +438,10 @@ var vfC12Targets = []vfC12Target{
 		ll.ReadWithSize(0, uint64(len(d)))
 		// records that (according to a corrupt previous-record pointer or index entry: 6-byte offset, 3-byte size)
 		// start at / beyond the end of the log: nothing can be read, so nothing of the declared size may be allocated
+		w.step("opening and reading the log", 0)
 		for _, off := range []uint64{uint64(len(d)), uint64(len(d)) + 1, uint64(len(d)) + 9, uint64(len(d)) + 1000, 1 << 32, 1<<48 - 1} {
 			ll.ReadWithSize(off, 1<<24-1)
+			w.step(fmt.Sprintf("ReadWithSize(offset %d beyond the %d-byte log, size 16 MiB)", off, len(d)), 1<<20)
 		}
 		for _, sz := range []uint64{0, 1, 5, 9, 10, 11, 128, 1 << 20} {
 			ll.ReadWithSize(0, sz)
@@ -452,6 +485,7 @@ var vfC12Targets = []vfC12Target{
 	}},
 	{name: "tx-meta", seeds: func(w *vfC12World) [][]byte { return w.metas }, run: func(w *vfC12World, d []byte) bool {
 		_, err := solanatxmetaparsers.ParseAnyTransactionStatusMeta(d)
+		w.step("ParseAnyTransactionStatusMeta", 0)
 		solanatxmetaparsers.ParseTransactionStatusMetaContainer(d)
 		return err == nil
 	}},
@@ -824,8 +858,9 @@ type vfC12Outcome struct {
 // vfC12exec runs the target under the panic / time / memory watchdog.
 func vfC12exec(w *vfC12World, tg *vfC12Target, data []byte) (vfC12Outcome, error) {
 	var out vfC12Outcome
-	var before, after runtime.MemStats
+	var before runtime.MemStats
 	runtime.ReadMemStats(&before)
+	w.allocBase, w.allocErr, w.allocMax, w.inLen = before.TotalAlloc, "", 0, len(data)
 	start := time.Now()
 	done := make(chan error, 1)
 	go func() {
@@ -848,11 +883,10 @@ func vfC12exec(w *vfC12World, tg *vfC12Target, data []byte) (vfC12Outcome, error
 		return out, fmt.Errorf("did not return within 20s on a %d-byte input", len(data))
 	}
 	out.elapsed = time.Since(start)
-	runtime.ReadMemStats(&after)
-	out.alloc = after.TotalAlloc - before.TotalAlloc
-	limit := uint64(64<<20) + 256*uint64(len(data))
-	if out.alloc > limit {
-		return out, fmt.Errorf("allocated %d MiB while handling a %d-byte input (bound: 64 MiB + 256 x input)", out.alloc>>20, len(data))
+	w.step("the call", 0)
+	out.alloc = w.allocMax // largest single call
+	if w.allocErr != "" {
+		return out, errors.New(w.allocErr)
 	}
 	return out, nil
 }
